@@ -349,12 +349,9 @@ impl LocalPeerService {
                     }
                 }
             }
-            let acquere = acquired_lock.lock().await;
-            let mut rooms: Vec<Uid> = Vec::new();
-            for room in acquere.iter() {
-                rooms.push(*room);
-            }
-            Self::cleanup(&lock_service, rooms).await;
+            // the rooms of `acquired_lock` are released by their synchronisation task when it ends:
+            // releasing them here too would let another connection synchronise a room whose task
+            // is still running, and release it twice
             let key = remote_verifying_key.lock().await;
             peer_service
                 .disconnect(key.clone(), circuit_id, connection_info.conn_id)
